@@ -17,6 +17,7 @@ ASSUMPTIONS = [
 SPEC = {'conf_quick': [('K4', 3)],
  'conf_thorough': [('K4', 4), ('K6', 3)],
  'quick': [('K1', 'lend', 4),
+           ('K15', 'lend', 4),
            ('K12', 'lend', 4),
            ('K4', 'lend', 4),
            ('K2', 'std', 3),
